@@ -11,7 +11,8 @@ TABLES = ["ast_node_by_id", "containing_ast_by_id", "containing_stmt_by_id", "pa
 def call_of(stmt, obj, meth):
     if isinstance(stmt, ast.Expr) and isinstance(stmt.value, ast.Call) and isinstance(stmt.value.func, ast.Attribute) and stmt.value.func.attr == meth \
             and isinstance(stmt.value.func.value, ast.Name) and stmt.value.func.value.id == obj:
-        return [a.id if isinstance(a, ast.Name) else None for a in stmt.value.args]
+        return [a.id if isinstance(a, ast.Name) else ("%s.%s" % (a.value.id, a.attr) if isinstance(a, ast.Attribute) and isinstance(a.value, ast.Name) else None)
+                for a in stmt.value.args]
     return None
 
 
@@ -41,7 +42,9 @@ def generate(repo):
                 and call_of(s.body[0], "last_tracer", "remove_bookkeeping")[0] == "old_bookkeeper":
             need(i_rm is None, s, "two removals of the old bookkeeper", fn)
             args = call_of(s.body[0], "last_tracer", "remove_bookkeeping")
-            need(args == ["old_bookkeeper", "module_id"], s, "remove_bookkeeping(old_bookkeeper, module_id) expected", fn)
+            need(args in (["old_bookkeeper", "module_id"], ["old_bookkeeper", "old_bookkeeper.module_id"]), s,
+                 "remove_bookkeeping(old_bookkeeper, module_id | old_bookkeeper.module_id) expected", fn)
+            remove_old_mid = args[1] == "old_bookkeeper.module_id"
             t = s.test
             need(isinstance(t, ast.BoolOp) and isinstance(t.op, ast.And) and len(t.values) == 3, s, "removal condition must be a conjunction of three", fn)
             a, b, c = t.values
@@ -57,6 +60,18 @@ def generate(repo):
             need(i_add is None, s, "two additions", fn)
             need(call_of(s, "last_tracer", "add_bookkeeping") == ["new_bookkeeper", "module_id"], s, "add_bookkeeping(new_bookkeeper, module_id) expected", fn)
             i_add = i
+    mids = [s for s in visit.body if isinstance(s, ast.Assign) and isinstance(s.targets[0], ast.Name) and s.targets[0].id == "module_id"]
+    need(len(mids) == 1 and isinstance(mids[0].value, ast.IfExp), visit, "module_id = <default> if self._module_id is None else self._module_id", fn)
+    dflt = mids[0].value.body
+    need(isinstance(dflt, ast.Call) and isinstance(dflt.func, ast.Name) and dflt.func.id == "id" and len(dflt.args) == 1, mids[0], "the default module id is id(<something>)", fn)
+    a0 = dflt.args[0]
+    if isinstance(a0, ast.Name) and a0.id == "node":
+        mid_registered = False
+    else:
+        need(isinstance(a0, ast.Subscript) and isinstance(a0.value, ast.Name) and a0.value.id == "orig_to_copy_mapping" and isinstance(a0.slice, ast.Call)
+             and isinstance(a0.slice.func, ast.Name) and a0.slice.func.id == "id" and isinstance(a0.slice.args[0], ast.Name) and a0.slice.args[0].id == "node",
+             mids[0], "id(node) or id(orig_to_copy_mapping[id(node)]) expected", fn)
+        mid_registered = True
     need(None not in (i_old, i_new, i_rm, i_add), visit, "old/new bookkeeper, removal and addition not all found at the top level of AstRewriter.visit", fn)
     need(i_old < i_new and i_new < i_rm and i_new < i_add, visit, "the old bookkeeper must be read before the new one is registered, both before removal / addition", fn)
     # the two class methods
@@ -102,5 +117,11 @@ def generate(repo):
             "(* AstRewriter.visit: the old bookkeeper of the path is removed from the class-level tables before (true) or after (false) the new one is added *)\n"
             "Definition book_remove_first : bool := %s.\n"
             "(* AstRewriter.gc_bookkeeping (class default) *)\n"
-            "Definition book_gc_default : bool := %s.\n" % ("true" if i_rm < i_add else "false", "true" if gc_default else "false"))
+            "Definition book_gc_default : bool := %s.\n"
+            "(* the old bookkeeper's lines are cleared from the line table of ITS module id (true) or of the new one's (false) *)\n"
+            "Definition book_remove_old_mid : bool := %s.\n"
+            "(* the line tables are keyed by the id of the registered copy of the tree - one of the bookkeeper's own nodes, alive as long as its entries -\n"
+            "   (true) or by the id of the tree handed to the rewriter (false) *)\n"
+            "Definition book_mid_is_registered_node : bool := %s.\n"
+            % ("true" if i_rm < i_add else "false", "true" if gc_default else "false", "true" if remove_old_mid else "false", "true" if mid_registered else "false"))
     return {"BookOrder.v": text}
